@@ -19,6 +19,19 @@ APPLY = [
     "Meddly.DD.apply1_unique",
 ]
 
+# Theorems about the GENERATED level arithmetic (Gen/Levels.lean <- forest_levels.h, defines.h): the position
+# numbering of the Lean model is the library's level order.
+LEVELS = ["Meddly.Levels." + t for t in [
+    "defined_of_bounded", "results_in_range", "pos_inj", "posOf_inj", "pos_levelOfPos", "levelOfPos_pos",
+    "MXD_downLevel_pos", "MXD_downLevel_posOf", "MXD_downLevel_bottom", "MXD_upLevel_pos", "MXD_upLevel_posOf",
+    "MXD_up_down", "MXD_topLevel_pos", "MXD_topLevel_posOf", "isLevelAbove_iff_pos", "isLevelAbove_iff_posOf",
+    "isLevelAbove_order", "MXD_topUnprimed_eq", "MXD_primed_unprimed_pos", "MDD_levels_pos", "MXD_MDD_agree_unprimed"]]
+# Theorems tying the hand-written Core/HashStream.lean to the GENERATED Gen/HashStream.lean (<- hash_stream.h)
+HASHGEN = ["Meddly.HashStreamGen." + t for t in [
+    "rot_gen", "mix_gen", "final_mix_gen", "start_gen", "start0_gen", "finish_gen", "push_gen", "push2_gen", "push3_gen",
+    "genRun_sim", "model_is_generated", "gen_total", "gen_push2_eq", "gen_push3_eq", "gen_hash_of_sequence",
+    "gen_hashSeq", "gen_hash_agree"]]
+
 # family run: (family, flavor, extra args)
 def fam(name, flavor="plain", **kw):
     return {"family": name, "flavor": flavor, "args": kw}
@@ -101,14 +114,16 @@ PROPS = {
                             "Meddly.HashStream.push2_eq", "Meddly.HashStream.hash_of_sequence", "Meddly.HashStream.hash_agree",
                             "Meddly.UniqueTable.ut_inv", "Meddly.UniqueTable.ut_find_spec", "Meddly.UniqueTable.ut_refines_set",
                             "Meddly.UniqueTable.no_duplicate_contents", "Meddly.UniqueTable.no_duplicate_contents_real",
-                            "Meddly.UniqueTable.dump_distinctOK"],
-        "quick": [fam("canon")],
-        "thorough": [fam("canon", "asan")],
-        "leanchecker": ["MeddlyModel.Core.Canon", "MeddlyModel.Core.Dump"],
+                            "Meddly.UniqueTable.dump_distinctOK"] + LEVELS + HASHGEN,
+        # regenerated from forest_levels.h / defines.h / hash_stream.h on every run; a failed translator is a broken obligation
+        "gen": ["Gen.Levels", "Gen.HashStream"],
+        "quick": [fam("canon"), fam("gen")],
+        "thorough": [fam("canon", "asan"), fam("gen", "asan")],
+        "leanchecker": ["MeddlyModel.Core.Canon", "MeddlyModel.Core.Dump", "MeddlyModel.Props.Levels", "MeddlyModel.Props.HashStreamGen"],
         "level_text": "DD.canon: two reduced trees (fully / quasi / identity rule, any domain with sizes >= 2, any terminal type) denote the same function iff they are the same tree; Dump.check_sound + Dump.unfold_inj: a dump of the real node store accepted by the verified checker unfolds injectively into reduced trees, so in THAT real state every two edges are equal iff they denote the same function (all assignments, not the sampled ones); mkNode_red/apply*_red: the model's createReducedNode and apply keep the reduced form. Tie: every quiescent state of random histories is dumped and certified; the same function is built along 5 different paths (minterm orders, op chains, copies through other forests, after GC and handle reuse) and the observed == partition must equal the partition by evaluation table.",
-        "level_note": "Proved for multi-terminal forests (DD.canon) and for EV+ forests (EDD.canon: normalised edge values, value of a reduced edge = minimum of its denotation; EDump.check_sound for dumps); EV* (real, multiplicative) forests are covered by the structural recount, the == partition and evaluation only. Real-valued comparisons in the library are approximate (1e-6 relative): generators stay on an exactness-safe grid; rounding coincidences are not modelled. The unique table's hashing is observed only through its effect (duplicates in the dump).",
+        "level_note": "Proved for multi-terminal forests (DD.canon) and for EV+ forests (EDD.canon: normalised edge values, value of a reduced edge = minimum of its denotation; EDump.check_sound for dumps); EV* (real, multiplicative) forests are covered by the structural recount, the == partition and evaluation only. Real-valued comparisons in the library are approximate (1e-6 relative): generators stay on an exactness-safe grid; rounding coincidences are not modelled. The unique table's hashing is observed only through its effect (duplicates in the dump). Translator tie: the level arithmetic (MDD_levels / MXD_levels / isLevelAbove, forest_levels.h + defines.h) and the hash stream primitives (hash_stream.h) are regenerated into Lean on every run; Props/Levels.lean proves that the model's position numbering (unprimed k = 2k, primed -k = 2k-1) is exactly the library's level order (downLevel = position-1, topLevel = larger position, isLevelAbove = position >) and Props/HashStreamGen.lean that the hand-written hash-stream model equals the generated functions, so hash_agree / push2_eq / hash_of_sequence are statements about the header's current text; the differential family gen validates both translators against the real inline functions.",
         "technique": "Lean 4 proof (canonical form uniqueness by induction on positions) + verified certificate checker run on dumps of the real forest + differential build-path comparison",
-        "partial": ["EV* normal form not proved (floating point; checked differentially)", "HashStream / UniqueTable are hand-written models of hash_stream.h / unique_table.cc (hash values cross-checked against the real header by examples; tied at run time by the harness: both views and the packed node hash alike and the unique table finds every stored node)", "EV+ edge arithmetic over unbounded Int (no 64-bit wrap)"],
+        "partial": ["EV* normal form not proved (floating point; checked differentially)", "UniqueTable is a hand-written model of unique_table.cc, and WHICH stream calls computeHash / hashNode issue is hand-transcribed (tied at run time by the harness: both views and the packed node hash alike and the unique table finds every stored node); the stream primitives themselves (rot, mix, final_mix, start, push x3, finish) and the level arithmetic (MDD_levels, MXD_levels, isLevelAbove) are regenerated from hash_stream.h / forest_levels.h / defines.h on every run and the hand-written HashStream model and the position numbering are proved equal to them (Props/HashStreamGen.lean, Props/Levels.lean; translators validated by family gen)", "EV+ edge arithmetic over unbounded Int (no 64-bit wrap)"],
     },
     "C02": {
         "title": "Every stored node obeys the reduction rule",
@@ -116,12 +131,13 @@ PROPS = {
                             "Meddly.EDump.check_sound", "Meddly.EDump.check_sound_node", "Meddly.EDump.unfold_inj",
                             "Meddly.Codec.C02_views_agree", "Meddly.Codec.C02_hash_identical", "Meddly.Codec.C02_duplicates",
                             "Meddly.Codec.isSingleton_truth", "Meddly.Codec.unpack_pack_full", "Meddly.Codec.unpack_pack_sparse",
-                            "Meddly.HashStream.hash_agree"],
+                            "Meddly.HashStream.hash_agree"] + LEVELS + HASHGEN,
+        "gen": ["Gen.Levels", "Gen.HashStream"],
         "quick": [fam("canon"), fam("setops")],
         "thorough": [fam("canon", "asan"), fam("setops", "asan")],
         "leanchecker": ["MeddlyModel.Core.Dump"],
         "level_text": "The executable certificate checker Dump.check (no duplicate content, children strictly below and live, node-local reduction conditions, per-edge skipping conditions, root conditions) is proved sound: an accepted dump unfolds to trees in reduced form (Dump.check_sound, check_sound_node). It is run on a dump of EVERY active node of the real forest (public node-inspection API, full view) at every quiescent point of generated histories, for every MT forest kind and random storage / memory-manager / deletion policies; reported node count must equal the number of live nodes.",
-        "level_note": "The checker's completeness (never rejects a good state) is not proved; it is supported by clean runs at many seeds. Sparse/full view agreement and hashing are checked only through unique-table effects. EV+ forests use the verified EDump.check; EV* forests: structural recount + model evaluation only.",
+        "level_note": "The checker's completeness (never rejects a good state) is not proved; it is supported by clean runs at many seeds. Sparse/full view agreement and hashing are checked only through unique-table effects. EV+ forests use the verified EDump.check; EV* forests: structural recount + model evaluation only. Translator tie: the level arithmetic (MDD_levels / MXD_levels / isLevelAbove, forest_levels.h + defines.h) and the hash stream primitives (hash_stream.h) are regenerated into Lean on every run; Props/Levels.lean proves that the model's position numbering (unprimed k = 2k, primed -k = 2k-1) is exactly the library's level order (downLevel = position-1, topLevel = larger position, isLevelAbove = position >) and Props/HashStreamGen.lean that the hand-written hash-stream model equals the generated functions, so hash_agree / push2_eq / hash_of_sequence are statements about the header's current text; the differential family gen validates both translators against the real inline functions.",
         "technique": "verified certificate checker (Lean 4 soundness proof) applied to dumps of the real node store",
         "partial": ["full/sparse view agreement, hash equality and unique-table lookup are checked by the harness next to every dump (expect records), not by a Lean codec model", "EV* forests: no verified normal-form checker"],
     },
@@ -172,7 +188,7 @@ PROPS = {
     },
     "C11": {
         "title": "Enumeration and counting agree with the function",
-        "theorems": ["Meddly.DD.enumerate_spec", "Meddly.DD.enumerateMask_spec", "Meddly.DD.enumerate_mem_iff",
+        "theorems": ["Meddly.EDD.enumerateE_spec", "Meddly.EDD.enumerateE_sorted", "Meddly.EDD.enumerateE_nodup", "Meddly.EDD.cardE_eq_length", "Meddly.DD.enumerate_spec", "Meddly.DD.enumerateMask_spec", "Meddly.DD.enumerate_mem_iff",
                      "Meddly.DD.enumerate_sorted", "Meddly.DD.card_eq_length",
                      "Meddly.Dump.nodeCount_spec", "Meddly.Dump.edgeCount_spec",
                      "Meddly.Dump.evalFast_eq_evalChild"],
@@ -201,7 +217,7 @@ PROPS = {
         "partial": ["convert2index compute table not modelled (exercised warm, differential)"],
     },
     "C10": {'title': 'Copying between forests preserves the function',
-     'theorems': ['Meddly.EDD.copyMTtoEV_eval_top', 'Meddly.EDD.copyEVtoMT_eval_top', 'Meddly.EDD.copy_roundtrip', 'Meddly.EDD.copyMTtoEV_unique',
+     'theorems': ['Meddly.KnownFindings.FC10.FC10_1_violates', 'Meddly.KnownFindings.FC10.FC10_1_positive', 'Meddly.EDD.copyMTtoEV_eval_top', 'Meddly.EDD.copyEVtoMT_eval_top', 'Meddly.EDD.copy_roundtrip', 'Meddly.EDD.copyMTtoEV_unique',
                   'Meddly.DD.canon',
                   'Meddly.Dump.check_sound',
                   'Meddly.Dump.unfold_inj',
@@ -254,7 +270,8 @@ PROPS = {
                  'F-C10-1/2/3 (see NOTES / known_findings proposal): generator steers away, probes reproduce']},
     "C05": {
         "title": "Element-wise arithmetic, comparison, min/max and user-defined maps are pointwise",
-        "theorems": CORE + APPLY + ["Meddly.EDD.applyE2_eval_top", "Meddly.EDD.applyE2_red_top", "Meddly.EDD.applyE2_unique",
+        "theorems": CORE + APPLY + ["Meddly.KnownFindings.C05F1.C05_F1_violates", "Meddly.KnownFindings.C05F4.C05_F4_violates",
+                                    "Meddly.KnownFindings.C05F2.C05_F2_violates", "Meddly.EDD.applyE2_eval_top", "Meddly.EDD.applyE2_red_top", "Meddly.EDD.applyE2_unique",
                                     "Meddly.EDD.evplus_plus_eval", "Meddly.EDD.evplus_min_eval", "Meddly.EDD.evplus_max_eval",
                                     "Meddly.EDD.evplus_minus_eval", "Meddly.EDD.evplus_minus_error_iff_denot"] + ["Meddly.Arith." + t for t in [
             "arith_eval", "arith_error", "arith_error_iff", "arith_red", "arith_unique",
@@ -278,7 +295,7 @@ PROPS = {
                     "64-bit / 31-bit overflow (VALUE_OVERFLOW) not exercised"],
     },
     "C09": {'title': 'One-step image and vector-matrix products follow the relational definition',
-     'theorems': ['Meddly.DD.canon',
+     'theorems': ['Meddly.EDD.imageEV_eval', 'Meddly.EDD.imageEV_red', 'Meddly.EDD.imageEV_unique', 'Meddly.EDD.imageEV_empty', 'Meddly.DD.canon',
                   'Meddly.Dump.check_sound',
                   'Meddly.Dump.unfold_inj',
                   'Meddly.Dump.evalFast_eq_evalChild',
@@ -337,7 +354,7 @@ PROPS = {
                  'real-valued products on the dyadic grid only (float rounding not modelled)',
                  'C++ level-skipping shortcuts covered through uniqueness, not as a refinement proof']},
     "C14": {'title': 'Writing functions to an exchange file and reading them back is lossless',
-     'theorems': ['Meddly.DD.canon',
+     'theorems': ['Meddly.EVX.readTE_writeTE', 'Meddly.EVX.read_write_file', 'Meddly.EVX.decodeE_encodeE', 'Meddly.EVX.writeFE_shared', 'Meddly.DD.canon',
                   'Meddly.Dump.check_sound',
                   'Meddly.Dump.unfold_inj',
                   'Meddly.Dump.evalFast_eq_evalChild',
@@ -489,7 +506,7 @@ PROPS = {
                  'EV+/EV* edge-value normalisation not modelled (compared via dump evaluation)',
                  'illegal minterms (DONT_CHANGE with a fixed unprimed value set bypassing setVars, out-of-range entries) not modelled']},
     "C08": {'title': 'Reachability operations return exactly the least fixed point',
-     'theorems': ['Meddly.Satur.satur_eq_lfp', 'Meddly.Satur.saturate_sound', 'Meddly.Satur.saturate_closed', 'Meddly.Satur.satLoop_stops', 'Meddly.Satur.saturate_red', 'Meddly.Satur.satur_eq_bfs', 'Meddly.Satur.satur_eq_reach_lfp', 'Meddly.Satur.recFire_sound', 'Meddly.Satur.recFire_closed', 'Meddly.Reach.lfpIter_spec',
+     'theorems': ['Meddly.KnownFindings.F7.F7_violates', 'Meddly.KnownFindings.F7.F7_positive', 'Meddly.KnownFindings.SatSets.F4_violates', 'Meddly.KnownFindings.SatSets.F4_repaired', 'Meddly.KnownFindings.F10.F10_violates', 'Meddly.Satur.satur_eq_lfp', 'Meddly.Satur.saturate_sound', 'Meddly.Satur.saturate_closed', 'Meddly.Satur.satLoop_stops', 'Meddly.Satur.saturate_red', 'Meddly.Satur.satur_eq_bfs', 'Meddly.Satur.satur_eq_reach_lfp', 'Meddly.Satur.recFire_sound', 'Meddly.Satur.recFire_closed', 'Meddly.Reach.lfpIter_spec',
                   'Meddly.Reach.bfs_nofrontier_eq_lfp',
                   'Meddly.Reach.bfs_frontier_eq_lfp',
                   'Meddly.Reach.bfs_algorithms_agree',
@@ -538,7 +555,7 @@ PROPS = {
      'rule': 'cases 0..N-1: random scenarios from (seed, case); cases 800000..: exhaustive 2-state tier; cases 900000..: fixed probes of known trigger classes '
              '(forked)'},
     "C13": {'title': 'Variable reordering preserves every function and every held edge',
-     'theorems': ['Meddly.DD.canon',
+     'theorems': ['Meddly.DD.swapVarRel_eval', 'Meddly.DD.swapVarRel_red', 'Meddly.DD.swapVarRel_canonical', 'Meddly.DD.swapVarRel_involutive', 'Meddly.DD.levelSwap4_eq_swapVarRel', 'Meddly.EDD.swapAdjE_eval', 'Meddly.EDD.swapAdjE_red', 'Meddly.EDD.swapAdjE_canonical', 'Meddly.Reorder.reorderRel_preserves_function', 'Meddly.Reorder.reorderRel_preserves_reduced', 'Meddly.Reorder.reorderE_preserves_function', 'Meddly.Reorder.reorderE_preserves_reduced', 'Meddly.DD.canon',
                   'Meddly.Dump.check_sound',
                   'Meddly.Dump.unfold_inj',
                   'Meddly.Dump.evalFast_eq_evalChild',
@@ -589,7 +606,7 @@ PROPS = {
                  'schedule taken by a heuristic not predicted',
                  'index-set and real-valued forests not exercised']},
     "C20": {'title': 'Saturation over a partitioned relation equals reachability over its union',
-     'theorems': ['Meddly.Satur.satur_eq_lfp', 'Meddly.Satur.saturate_sound', 'Meddly.Satur.saturate_closed', 'Meddly.Satur.satLoop_stops', 'Meddly.Satur.saturate_red', 'Meddly.Satur.satur_eq_bfs', 'Meddly.Satur.satur_eq_reach_lfp', 'Meddly.Satur.recFire_sound', 'Meddly.Satur.recFire_closed', 'Meddly.Pregen.saturEvents_eq_lfp',
+     'theorems': ['Meddly.KnownFindings.F12.F12_violates', 'Meddly.KnownFindings.F12.F12_positive', 'Meddly.Satur.satur_eq_lfp', 'Meddly.Satur.saturate_sound', 'Meddly.Satur.saturate_closed', 'Meddly.Satur.satLoop_stops', 'Meddly.Satur.saturate_red', 'Meddly.Satur.satur_eq_bfs', 'Meddly.Satur.satur_eq_reach_lfp', 'Meddly.Satur.recFire_sound', 'Meddly.Satur.recFire_closed', 'Meddly.Pregen.saturEvents_eq_lfp',
                   'Meddly.Pregen.reachFix_eq_lfp',
                   'Meddly.Pregen.closed_superset_reach',
                   'Meddly.Pregen.saturEvents_sound',
